@@ -42,6 +42,110 @@ def op_lambda(F, f):
     return None
 
 
+def rule_al_semantics(F, R, f):
+    """the contribution of ONE constraint to the augmented-Lagrangian value and gradient, obtained by interpreting the loop body for an
+    equality and for an inequality (both with and without a gradient request), against the definition"""
+    from ..symexec import Interp
+    rf = [x for x in f.nodes() if x["k"] == "rangefor"]
+    if len(rf) != 1:
+        raise AnalysisBroken("augmented lagrangian: expected one loop over the constraints")
+    body = rf[0]["c"][rf[0]["r"].index("body")]
+    roles = {}
+    for v in f.nodes():
+        if v["k"] != "var" or not v.get("c"):
+            continue
+        init = skip(v["c"][0])
+        calls = [callee(c) for c in walk(init) if c["k"] == "call"]
+        t = pp(init)
+        if "nano::function_t::vgrad" in calls and "function()" in t:
+            roles["fx"] = v
+        elif "nano::vgrad" in calls:
+            roles["fc"] = v
+        elif "nano::is_equality" in calls:
+            roles["eq"] = v
+        elif t == "penalty()":
+            roles["ro"] = v
+        elif "m_lambda" in t and "m_miu" in t:
+            roles["mu"] = v
+    gcv = None
+    if roles.get("fc") is not None:
+        a_ = args([c for c in walk(roles["fc"]["c"][0]) if c["k"] == "call" and callee(c) == "nano::vgrad"][0])
+        d = ref_decl(a_[2]) if len(a_) >= 3 else None
+        gcv, _ = find_var(f, d) if d is not None else (None, None)
+        okx = len(a_) >= 3 and ref_decl(a_[1]) == f.params[0]["d"]
+        R.check(okx, "R-C05-1", "augmented lagrangian base", f.loc(roles["fc"]), "the constraint is evaluated at the objective's own argument", "the constraint is not evaluated at x")
+    missing = [k for k in ("fx", "fc", "eq", "ro", "mu") if roles.get(k) is None] + ([] if gcv is not None else ["gc"])
+    if missing:
+        raise AnalysisBroken("augmented lagrangian: cannot identify the locals playing the roles %s" % missing)
+    fxa = args([c for c in walk(roles["fx"]["c"][0]) if c["k"] == "call" and callee(c) == "nano::function_t::vgrad"][0])
+    R.check([ref_decl(z) for z in fxa[:2]] == [f.params[0]["d"], f.params[1]["d"]], "R-C05-1", "augmented lagrangian objective", f.loc(roles["fx"]),
+            "the objective part is function().vgrad(x, gx)", "the objective part is not evaluated at (x, gx)")
+    FX0, G0, X0 = kalg.sym("fx0"), kalg.sym("g0"), kalg.sym("x0")
+    preset = {roles[k]["d"] for k in ("fc", "eq", "mu", "ro")} | {gcv["d"]}
+    arg = RO / 2 * (FC + MU / RO) ** 2
+    res = {}
+    try:
+        for eq in (True, False):
+            for grad in (True, False):
+                it = Interp(F, f, n=1)
+                it.env[f.params[0]["d"]] = [X0]
+                it.env[f.params[1]["d"]] = [G0] if grad else []
+                it.env[roles["fx"]["d"]] = FX0
+                it.env[roles["ro"]["d"]] = RO
+                it.env[roles["fc"]["d"]] = FC
+                it.env[roles["mu"]["d"]] = MU
+                it.env[roles["eq"]["d"]] = sp.true if eq else sp.false
+                it.env[gcv["d"]] = [GC]
+                for st in body.get("c", ()):
+                    if st["k"] == "declstmt" and any(v["k"] == "var" and v["d"] in preset for v in st.get("c", ())):
+                        continue
+                    it.ex(st)
+                dv = sp.simplify(it.env[roles["fx"]["d"]] - FX0)
+                dg = sp.simplify(it.env[f.params[1]["d"]][0] - G0) if grad else None
+                res[(eq, grad)] = (dv, dg)
+    except kalg.OutOfFragment as e:
+        R.incomplete("R-C05-1", "augmented lagrangian", f.loc(), "cannot evaluate the loop body: %s" % e)
+        return
+    for eq in (True, False):
+        want = arg if eq else sp.Piecewise((arg, FC + MU / RO > 0), (0, True))
+        wantg = sp.diff(arg, FC) * GC if eq else sp.Piecewise((sp.diff(arg, FC) * GC, FC + MU / RO > 0), (0, True))
+        kind = "equality" if eq else "inequality"
+        dv, dg = res[(eq, True)]
+        dv0, _ = res[(eq, False)]
+        z1, w1 = piecewise_equal(dv, want, R.seed)
+        z0, w0 = piecewise_equal(dv0, want, R.seed)
+        z2, w2 = piecewise_equal(dg, wantg, R.seed)
+        R.check(z1 and z0, "R-C05-1", "augmented lagrangian value (%s)" % kind, f.loc(body),
+                "an %s adds %s" % (kind, "(ro/2)(h + lambda/ro)^2" if eq else "(ro/2) max(0, g + mu/ro)^2") + " whether or not a gradient is requested",
+                "an %s adds %s to the value, the definition is %s %s" % (kind, dv if not z1 else dv0, want, w1 or w0))
+        R.check(z2, "R-C05-2", "augmented lagrangian gradient (%s)" % kind, f.loc(body), "the gradient added is the derivative of the value added",
+                "an %s adds %s to the gradient, the derivative of the defined value is %s %s" % (kind, dg, wantg, w2))
+
+
+def piecewise_equal(a, b, seed):
+    """equality of two (possibly piecewise) expressions in fc, mu, ro, gc: exact rational sampling on both sides of the kink"""
+    import random
+    rnd = random.Random(1000 + seed)
+    syms = sorted(set(sp.sympify(a).free_symbols) | set(sp.sympify(b).free_symbols), key=lambda s_: s_.name)
+    d = sp.simplify(sp.sympify(a) - sp.sympify(b))
+    if d == 0:
+        return True, ""
+    for _ in range(60):
+        pt = {}
+        for s_ in syms:
+            v = sp.Rational(rnd.randint(-50, 50), rnd.randint(1, 7))
+            if s_.name == "ro":
+                v = sp.Rational(rnd.randint(1, 60), rnd.randint(1, 9))
+            pt[s_] = v
+        try:
+            val = sp.simplify(d.subs(pt))
+        except Exception:
+            return False, "(cannot evaluate the difference)"
+        if val != 0:
+            return False, "(differs by %s at %s)" % (sp.N(val, 6), {str(k): str(v) for k, v in pt.items()})
+    return True, ""
+
+
 def rule_kernels(F, R):
     # guard of penalty_vgrad
     pv = [g for g in F.in_file("src/function/penalty.cpp") if g.name == "penalty_vgrad"]
@@ -82,26 +186,7 @@ def rule_kernels(F, R):
         R.check(want.subs(FC, 0) == 0, "R-C05-1", cls.split("::")[-1] + " feasible point", lam.loc(), "no contribution at h = 0", "non-zero contribution at a feasible point")
     # augmented lagrangian
     f = F.one("nano::augmented_lagrangian_function_t::do_vgrad", "src/function/penalty.cpp")
-    atoms = {"fc": FC, "gc": GC, "ro": RO, "mu": MU}
-    want = RO / 2 * (FC + MU / RO) ** 2
-    vals = [x for x in f.nodes() if assignment(x) and assignment(x)[2] == "+=" and kalg.designator(assignment(x)[0]) == "fx"]
-    grs = [x for x in f.nodes() if assignment(x) and assignment(x)[2] == "+=" and kalg.designator(assignment(x)[0]) == "gx"]
-    try:
-        V = kalg.Conv(f, atoms=atoms, scalar=True, inline=False).conv(assignment(vals[0])[1])
-        E = kalg.Conv(f, atoms=atoms, scalar=True, inline=False).conv(assignment(grs[0])[1])
-        z1, w1 = kalg.is_zero(V - want, R.seed)
-        z2, w2 = kalg.is_zero(E - sp.diff(want, FC) * GC, R.seed)
-        R.check(bool(z1), "R-C05-1", "augmented lagrangian value", f.loc(vals[0]), "value added = (ro/2)(fc + mu/ro)^2", "value added is %s %s" % (V, w1))
-        R.check(bool(z2), "R-C05-2", "augmented lagrangian gradient", f.loc(grs[0]), "gradient added = ro (fc + mu/ro) gc", "gradient added is %s, derivative of the value is %s %s" % (E, sp.diff(want, FC) * GC, w2))
-    except (kalg.OutOfFragment, IndexError) as e:
-        R.incomplete("R-C05-1", "augmented lagrangian", f.loc(), str(e))
-    ifs = [x for x in f.nodes() if x["k"] == "if" and any(y is vals[0] for y in walk(x))] if vals else []
-    cond = pp(ifs[0]["c"][ifs[0]["r"].index("cond")]) if ifs else None
-    R.check(cond in ("(eq || ((fc + (mu / ro)) > 0))", "(eq || ((fc + (mu / ro)) > 0.0))"), "R-C05-1", "augmented lagrangian guard", f.loc(),
-            "an inequality contributes iff fc + mu/ro > 0", "AL guard is %s" % cond)
-    vars_ = {v["n"]: pp(v["c"][0]) for v in f.nodes() if v["k"] == "var" and v.get("c")}
-    R.check(vars_.get("ro") == "penalty()" and vars_.get("fx") == "function().vgrad(x, gx)" and vars_.get("fc") == "vgrad(constraint, x, gc)" and vars_.get("eq") == "is_equality(constraint)",
-            "R-C05-1", "augmented lagrangian base", f.loc(), "ro = penalty(), objective from function().vgrad(x, gx), constraint from ::nano::vgrad at x", "AL locals are %s" % {k: vars_.get(k) for k in ("ro", "fx", "fc", "eq")})
+    rule_al_semantics(F, R, f)
     # R-C05-7 multiplier pairing
     mu = [v for v in f.nodes() if v["k"] == "var" and v["n"] == "mu" and v.get("c")]
     okm = bool(mu) and pp(mu[0]["c"][0]) == "(eq ? m_lambda((ilambda++)) : m_miu((imiu++)))"
